@@ -198,6 +198,62 @@ pub fn schedule_part(run: &Run) -> Out {
         let cfg = Config { workers: 2, choose_items: true, max_decisions: 10_000, min_items: 2, count_task_switches: false };
         explore_case(run, &format!("{key}:W2"), &cfg, None, body, &seq, json!({"m": mr.show(), "r": r}), &tot);
     });
+    // ---- histories with a fault: an interrupted solve must not poison the next one --------------------
+    // A solve on an invalid input (non-unit diagonal entry: `inv().unwrap()` panics half-way through the
+    // substitution) is caught by the caller; the next solve of a valid system on the same thread(s) must
+    // still be exact.  Sequentially (same OS thread) and under the scheduler (the pool workers are
+    // persistent, so thread-bound state survives from the faulting execution to the next one; all
+    // task-to-worker assignments of the valid solve).  Seed `C12-scratch-static-survives-a-fault`.
+    {
+        let mut n_hist = 0u64;
+        for upper in [false, true] {
+            let t = if upper { TriangularType::Upper } else { TriangularType::Lower };
+            for n in [2usize, 3] {
+                // bad: unit triangular except one non-unit diagonal entry 2 at position p
+                for p in 0..n {
+                    for yk in 0..(1u32 << n) {
+                        if yk == 0 {
+                            continue;
+                        }
+                        let bad = RMat::<Z>::from_fn(n, n, |i, j| if i == j { if i == p { z(2) } else { z(1) } } else if (upper && i < j) || (!upper && i > j) { z(1) } else { z(0) });
+                        let ybad = RMat::<Z>::from_fn(n, 2, |i, _| z(((yk >> i) & 1) as i64));
+                        let good = RMat::<Z>::from_fn(n, n, |i, j| if i == j { z(1) } else if (upper && i < j) || (!upper && i > j) { z(1) } else { z(0) });
+                        let ygood = RMat::<Z>::from_fn(n, 3, |i, j| z(((i + j) % 2) as i64));
+                        let (ab, yb, ag, yg): (SpMat<i64>, SpMat<i64>, SpMat<i64>, SpMat<i64>) = (to_spmat::<i64>(&bad), to_spmat::<i64>(&ybad), to_spmat::<i64>(&good), to_spmat::<i64>(&ygood));
+                        // exact solution of the valid system by the reference: forward / backward substitution
+                        let mut want = RMat::<Z>::zero(n, 3);
+                        for c in 0..3 {
+                            let order: Vec<usize> = if upper { (0..n).rev().collect() } else { (0..n).collect() };
+                            for &i in &order {
+                                let mut v = ygood.at(i, c).clone();
+                                for j in 0..n {
+                                    if j != i && !good.at(i, j).is_zero() {
+                                        v = v.sub(&good.at(i, j).mul(want.at(j, c)));
+                                    }
+                                }
+                                want.set(i, c, v);
+                            }
+                        }
+                        let key = format!("spsched:fault-history:{}:n{n}:p{p}:y{yk}", if upper { "U" } else { "L" });
+                        n_hist += 1;
+                        // (1) one thread, no scheduler
+                        let _ = vcore::catch(|| solve_triangular(t, &ab, &yb));
+                        match vcore::catch(|| from_spmat(&solve_triangular(t, &ag, &yg))) {
+                            Ok(x) if x == want => {}
+                            Ok(x) => run.fail(&format!("{key}:seq"), &format!("after an interrupted solve on the same thread the next solve gives {} instead of {}", x.show(), want.show()), json!({"bad": bad.show(), "y_bad": ybad.show(), "good": good.show(), "y": ygood.show()})),
+                            Err(e) => run.fail(&format!("{key}:seq"), &format!("the valid solve panicked: {e}"), json!({"good": good.show()})),
+                        }
+                        // (2) two persistent workers: the faulting execution, then every assignment of the valid one
+                        let cfg = Config { workers: 2, choose_items: true, max_decisions: 10_000, min_items: 2, count_task_switches: false };
+                        let _ = sched::run_scheduled(&cfg, &[], || solve_triangular(t, &ab, &yb));
+                        let _ = sched::run_scheduled(&cfg, &[1], || solve_triangular(t, &ab, &yb));
+                        explore_case(run, &format!("{key}:W2"), &cfg, None, || from_spmat(&solve_triangular(t, &ag, &yg)), &want, json!({"bad": bad.show(), "y_bad": ybad.show(), "good": good.show(), "y": ygood.show()}), &tot);
+                    }
+                }
+            }
+        }
+        run.add("c12_fault_histories", n_hist);
+    }
     // ---- wide Schur complements: >= 64 columns outside the pivot block --------------------------------
     // (a column loop that is chunked or forks only above a minimum length hands a worker whole ranges
     // of columns; with work stealing a worker may process a higher range before a lower one, which
@@ -459,7 +515,7 @@ pub fn schedule_part(run: &Run) -> Out {
         points: g.1,
         json: json!({"cases": g.2, "executions": g.0, "lock_points_passed": g.1, "scheduled_parallel_calls": g.3,
                      "solve_cases": cases.len(), "schur_cases": scases.len(), "decomp_cases": dcases.len(),
-                     "wide_schur_cases": run.get("c12_wide_schur_cases"),
+                     "wide_schur_cases": run.get("c12_wide_schur_cases"), "fault_histories": run.get("c12_fault_histories"),
                      "solve_report_path": {"n": 10001, "log_level": "Debug", "executions": run.get("c12_report_path_executions"), "rule": "A = I + 2 entries, Y = I (10 001 columns = tasks); default schedule + every schedule with one deviation among the last 2 (thorough 24) decisions; quick: lower triangular only"},
                      "workers": "solve: 1,2,3 with item choice (all assignments and per-worker orders); schur: 2 with item choice; wide schur (64-96 columns): 2 with item choice, deviations (hand-overs + out-of-order items) <= 1 (thorough 2); decomp: 2, preemption bound 2 (thorough 3)"}),
     }
